@@ -247,11 +247,25 @@ def run_workers(subcmd, cases_path, n_cases, out_path, shards=None, timeout=10, 
     binary = build_harness()
     shards = max(1, min(shards or NCPU, (n_cases + 199) // 200 or 1))
     stats = {"hang": 0, "abort": 0}
-    bounds = [(n_cases * i // shards, n_cases * (i + 1) // shards) for i in range(shards)]
-    parts = [out_path + ".part%d" % i for i in range(shards)]
+    # the file is cut into more pieces than there are workers and the workers take the next piece when they are done:
+    # cases of very different cost (long random histories at the end of a file) do not leave one worker with all of them
+    npieces = max(shards, min(shards * 8, (n_cases + 199) // 200 or 1))
+    bounds = [(n_cases * i // npieces, n_cases * (i + 1) // npieces) for i in range(npieces)]
+    parts = [out_path + ".part%d" % i for i in range(npieces)]
+    todo = list(range(npieces))
+    qlock = threading.Lock()
+    wenv = dict(os.environ, **env) if env else None
+
+    def pull():
+        while True:
+            with qlock:
+                if not todo:
+                    return
+                i = todo.pop(0)
+            _shard_worker(binary, subcmd, cases_path, bounds[i][0], bounds[i][1], parts[i], timeout, extra_args, stats, wenv)
     ths = []
-    for (lo, hi), part in zip(bounds, parts):
-        th = threading.Thread(target=_shard_worker, args=(binary, subcmd, cases_path, lo, hi, part, timeout, extra_args, stats, (dict(os.environ, **env) if env else None)))
+    for _ in range(shards):
+        th = threading.Thread(target=pull)
         th.start()
         ths.append(th)
     for th in ths:
@@ -303,6 +317,11 @@ def count_lines(path):
 
 # --------------------------------------------------------------------------- mode V: TLC over observations
 
+# validators that decide the records the supervisor writes for a worker that hung or died (known-finding signatures live
+# there); for every other validator the Python driver reports those records itself and TLC never sees them
+OUTCOME_AWARE = {"V_C07", "V_C14", "V_C15", "V_C16", "V_C18", "V_C19", "V_C20", "V_Compile"}
+
+
 def validate(pid, module, obs_path, cfg=None, chunk=20000, parallel=None, env=None, timeout=3600, xmx="3g", workers=2, check_count=True, deque=False):
     """Mode V: TLC evaluates the property-layer formula of `module` on every line of obs_path.
     The file is cut into chunks, one TLC process per chunk (the chunks are independent: every case is
@@ -319,6 +338,8 @@ def validate(pid, module, obs_path, cfg=None, chunk=20000, parallel=None, env=No
         for ln, line in enumerate(f):
             if line.startswith('{"case": ') and '"outcome": "notrun"' in line[:60]:
                 continue          # not executed (hang budget exhausted): no verdict
+            if module not in OUTCOME_AWARE and line.startswith('{"case": ') and '"outcome": "' in line[:60]:
+                continue          # written by the supervisor (hang / abort): this validator has no rule for it, the driver reports it
             buf.append(line)
             idx.append(ln)
             if len(buf) >= chunk:
@@ -343,6 +364,8 @@ def validate(pid, module, obs_path, cfg=None, chunk=20000, parallel=None, env=No
 
     def one(cp, base, cnt, idx):
         with sem:
+            if errors:          # a chunk already failed with a tool error: the run cannot give a verdict, do not evaluate the rest
+                return
             try:
                 e = dict(env or {})
                 e["OBS"] = cp
